@@ -42,6 +42,9 @@ REGISTRY = dict(
     technique="machine-checked proof in Coq (state machine, character-level printer/reader induction) + regenerated-fragment interface lemmas + byte-exact differential correspondence",
 )
 
+COV_TARGETS = {"stable_baselines3/common/logger.py": ["KVWriter", "SeqWriter", "HumanOutputFormat", "filter_excluded_keys", "JSONOutputFormat", "CSVOutputFormat",
+                                                       "make_output_format", "Logger", "configure", "read_json", "read_csv"]}
+
 HEADER = """From Coq Require Import List QArith ZArith Bool Ascii String.
 From SB3V Require Import Model.Csv Model.Logger.
 Import ListNotations.
@@ -673,6 +676,9 @@ def run_cases(chk, cases):
 def main():
     chk = Check("C20", groups=["logger"])
     chk.build_props()
+    from harness import c18_branchcov
+
+    cov = c18_branchcov.maybe_start(COV_TARGETS)   # VERIF_BRANCHCOV=1: which lines of the anchored functions this run executes
     n_cases = int(os.environ.get("VERIF_NCASES", 0)) or (1000 if chk.tier == "quick" else 8000)
     cases = []
     corpus = os.path.join(common.VERIF, "corpus", "C20.jsonl")
@@ -735,6 +741,8 @@ def main():
         "Python's str() of numbers is an input of the CSV model (taken from the pending value, which is compared with the Logger model at 1e-9)",
         "a record() between record_mean() calls on the same key in one dump is not generated (the running count is kept, the documented mean then no longer applies)",
     ]
+    if cov is not None:
+        chk.notes["branch_coverage"] = cov.report()
     return chk.finish()
 
 
